@@ -368,9 +368,13 @@ func judgeMerge(o *Out, op string, c *typCtx, tr schema.TypeRef, a, b, m *typed.
 		return
 	}
 	if _, err := typed.AsTyped(a.AsValue(), c.sc, tr); err == nil {
-		// the left side is duplicate-free: so must be the result (a right side with duplicates is an error)
-		if _, err := typed.AsTyped(m.AsValue(), c.sc, tr); err != nil {
-			fail("result-valid/duplicate-free", err.Error())
+		if _, err := typed.AsTyped(b.AsValue(), c.sc, tr); err == nil {
+			// both sides are duplicate-free: so must be the result. (A right side that is only valid with
+			// duplicates allowed either makes the merge fail or carries its duplicates inside a value taken
+			// whole - an atomic list - which the merge does not look into.)
+			if _, err := typed.AsTyped(m.AsValue(), c.sc, tr); err != nil {
+				fail("result-valid/duplicate-free", err.Error())
+			}
 		}
 	}
 	// merging R again is a no-op (syntactic)
